@@ -4,6 +4,7 @@ import (
 	"fmt"
 	"os"
 	"regexp"
+	"runtime"
 	"strings"
 
 	rt "github.com/arnodel/golua/runtime"
@@ -12,7 +13,7 @@ import (
 )
 
 func extraFamilies(tier string) []*core.Family {
-	return []*core.Family{uFamily(), mFamily(), lFamily(tier), rFamily(tier)}
+	return []*core.Family{uFamily(), mFamily(), lFamily(tier), rFamily(tier), aFamily(tier)}
 }
 
 // ------------------------------------------------------------------ U
@@ -439,8 +440,16 @@ func lFamily(tier string) *core.Family {
 // ------------------------------------------------------------------ R
 //
 // every single-byte truncation and every single-bit flip of the dumps of five
-// small functions: load returns fail+message or a function, never a Go panic;
-// a returned function called under limits gives an ordinary outcome.
+// small functions, given to load inside a limited context (memory 64 MB, cpu
+// 10^6): load returns fail+message or a function or is stopped by the limit,
+// never a Go panic; a returned function called under limits gives an ordinary
+// outcome.
+//
+// Flips of bits >= 22 of an element count (number of opcodes / lines /
+// constants / upvalue names) are not executed here: golua allocates the array
+// before charging for it, so those cases allocate up to 2^47 bytes and kill or
+// stall the worker.  That defect is demonstrated with safe sizes by the family
+// R-alloc instead.
 
 type rCase struct {
 	fn    int
@@ -487,6 +496,10 @@ func panicClass(s string) string {
 	return s
 }
 
+func rLimits() *rt.RuntimeContextDef {
+	return &rt.RuntimeContextDef{HardLimits: rt.RuntimeResources{Cpu: 1000000, Memory: 64 << 20}}
+}
+
 func rFamily(tier string) *core.Family {
 	rInit()
 	var cases []rCase
@@ -507,13 +520,17 @@ func rFamily(tier string) *core.Family {
 		b[c.pos/8] ^= 1 << (c.pos % 8)
 		return string(b), fmt.Sprintf("flip@%d.%d", c.pos/8, c.pos%8)
 	}
-	where := func(c rCase) string {
+	fieldOf := func(c rCase) (f field, bit int) {
 		off := c.pos
 		if !c.trunc {
 			off = c.pos / 8
 		}
-		kind, _ := kindAt(rFields[c.fn], off)
-		return kind
+		for _, f := range rFields[c.fn] {
+			if off >= f.off && off < f.off+f.n {
+				return f, (off-f.off)*8 + c.pos%8
+			}
+		}
+		return field{kind: "?"}, 0
 	}
 	return &core.Family{
 		Name:        "R-corrupt",
@@ -531,25 +548,90 @@ func rFamily(tier string) *core.Family {
 		Run: func(i uint64) core.Outcome {
 			c := cases[i]
 			d, mut := mutate(c)
-			key := fmt.Sprintf("R-corrupt fn=%s mut=%s field=%s", mFuncs[c.fn].name, mut, where(c))
+			f, bit := fieldOf(c)
+			if !c.trunc && f.kind == "count" && bit >= 22 {
+				return core.Outcome{Skipped: true} // see R-alloc
+			}
+			key := fmt.Sprintf("R-corrupt fn=%s mut=%s field=%s", mFuncs[c.fn].name, mut, f.kind)
 			m := newMachine()
 			defer m.Close()
 			out := core.Outcome{NonTrivial: true, States: 1}
-			g, o := load(m, d, "b", emptyDef())
+			g, o := load(m, d, "b", rLimits())
 			if o.status == "gopanic" {
 				out.Viol = &core.Violation{Key: fmt.Sprintf("%s clause=load-gopanic panic=%q", key, panicClass(o.err)),
-					Detail: fmt.Sprintf("load(<%s of the dump of %s>, \"chunk\", \"b\") let a Go panic escape: %s", mut, mFuncs[c.fn].name, o.err)}
+					Detail: fmt.Sprintf("load(<%s of the dump of %s>, \"chunk\", \"b\") let a Go panic escape: %s\nmutated field: %s", mut, mFuncs[c.fn].name, o.err, f.what)}
 				return out
 			}
 			if g.IsNil() {
 				out.Sig = core.Hash64("rejected " + o.status)
 				return out
 			}
-			r := callRaw(m, g, toRTs(stdTuples[3]), &rt.RuntimeContextDef{HardLimits: rt.RuntimeResources{Cpu: 100000, Memory: 100000000}})
+			r := callRaw(m, g, toRTs(stdTuples[3]), rLimits())
 			out.Sig = core.Hash64("loaded " + r.status)
 			if r.status == "gopanic" {
 				out.Viol = &core.Violation{Key: fmt.Sprintf("%s clause=call-gopanic panic=%q", key, panicClass(r.err)),
-					Detail: fmt.Sprintf("load accepted <%s of the dump of %s>; calling the function under cpu limit 100000 let a Go panic escape: %s", mut, mFuncs[c.fn].name, r.err)}
+					Detail: fmt.Sprintf("load accepted <%s of the dump of %s>; calling the function under cpu limit 10^6 / memory limit 64 MB let a Go panic escape: %s\nmutated field: %s", mut, mFuncs[c.fn].name, r.err, f.what)}
+			}
+			return out
+		},
+	}
+}
+
+// R-alloc: an element count of the top-level function is replaced by 2^bit;
+// load runs under a hard memory limit of 1 MB.  The Go heap may not grow by
+// more than 16 times the limit while load runs (runtime.MemStats.TotalAlloc is
+// an exact byte count; the worker runs one case at a time).
+func aFamily(tier string) *core.Family {
+	rInit()
+	type ac struct {
+		fn   int
+		f    field
+		bit  int
+	}
+	var cases []ac
+	for k := range rDumps {
+		for _, f := range rFields[k] {
+			if f.kind == "count" && strings.Count(f.what, ".") == 1 { // F.ncode, F.nlines, F.nconsts, F.nupnames
+				for _, bit := range []int{22, 25} {
+					cases = append(cases, ac{k, f, bit})
+				}
+			}
+		}
+	}
+	const limit = 1 << 20
+	return &core.Family{
+		Name:        "R-alloc",
+		Size:        uint64(len(cases)),
+		Serial:      true,
+		HangSeconds: 120,
+		Show: func(i uint64) string {
+			c := cases[i]
+			return fmt.Sprintf("fn=%s %s := 2^%d, load under memory limit %d", mFuncs[c.fn].name, c.f.what, c.bit, limit)
+		},
+		Run: func(i uint64) core.Outcome {
+			c := cases[i]
+			b := []byte(rDumps[c.fn])
+			for k := 0; k < 8; k++ {
+				b[c.f.off+k] = 0
+			}
+			b[c.f.off+c.bit/8] = 1 << (c.bit % 8)
+			m := newMachine()
+			defer m.Close()
+			var before, after runtime.MemStats
+			runtime.GC()
+			runtime.ReadMemStats(&before)
+			_, o := load(m, string(b), "b", &rt.RuntimeContextDef{HardLimits: rt.RuntimeResources{Memory: limit}})
+			runtime.ReadMemStats(&after)
+			grown := after.TotalAlloc - before.TotalAlloc
+			out := core.Outcome{NonTrivial: true, States: 1, Sig: core.Hash64(fmt.Sprint(c.f.what, c.bit, o.status, grown > 16*limit))}
+			key := fmt.Sprintf("R-alloc fn=%s field=%s count=2^%d", mFuncs[c.fn].name, c.f.what, c.bit)
+			switch {
+			case o.status == "gopanic":
+				out.Viol = &core.Violation{Key: key + " clause=load-gopanic", Detail: o.err}
+			case grown > 16*limit:
+				out.Viol = &core.Violation{Key: key + " clause=allocates-before-charging",
+					Detail: fmt.Sprintf("load of a %d byte binary chunk whose %s says 2^%d, inside a context with a hard memory limit of %d bytes: the Go heap grew by %d bytes before load ended with status %q %s (context memory used as reported: %d)",
+						len(b), c.f.what, c.bit, limit, grown, o.status, o.err, o.usedMem)}
 			}
 			return out
 		},
